@@ -80,6 +80,7 @@ def judge_success_late(sc, lines_in, impl_out):
 
 class C12(PropBase):
     id = 'C12'
+    rx_only_gaps = 0.1
     partial_passes = 0.25
     rx_only_passes = 0.4
     lean_modules = ['Isotp.Props.C12']
